@@ -40,6 +40,36 @@ static void entries_init_sorted(void)
 		V_ASSUME(v_cmp(E_key[i], E_kl[i], E_key[i + 1], E_kl[i + 1]) < 0);
 }
 
+/* Templated keys (shape KT): per byte  0..255 = that concrete value, 256 = fresh symbolic byte,
+ * 257 = the same byte as the previous key at this position (identical solver symbol).
+ * The Python shape code lays templates out so that each adjacent pair of keys is decided at a
+ * CONCRETE byte (or by one key being a proper prefix): order and common-prefix lengths are then
+ * constants for CBMC's symex (comparisons of identical symbols and of constants fold), while
+ * all other key bytes and all value bytes stay symbolic.  See DESIGN.md 2.2. */
+#ifdef KT
+static const uint16_t E_kt[N ? N : 1][KLMAX] = KT;
+static void entries_init_template(void)
+{
+	for (size_t i = 0; i < N; i++) {
+		for (size_t j = 0; j < KLMAX; j++) {
+			if (j >= E_kl[i])
+				E_key[i][j] = 0;
+			else if (E_kt[i][j] == 257 && i > 0)
+				E_key[i][j] = E_key[i - 1][j];
+			else if (E_kt[i][j] == 256)
+				E_key[i][j] = vn_u8();
+			else
+				E_key[i][j] = (uint8_t)E_kt[i][j];
+		}
+		for (size_t j = 0; j < VLMAX; j++)
+			E_val[i][j] = (j < E_vl[i]) ? vn_u8() : 0;
+	}
+	/* by construction; checked anyway (folds to true) */
+	for (size_t i = 0; i + 1 < N; i++)
+		V_ASSUME(v_cmp(E_key[i], E_kl[i], E_key[i + 1], E_kl[i + 1]) < 0);
+}
+#endif
+
 /* arbitrary (unordered) content */
 static void entries_init_any(void)
 {
